@@ -441,7 +441,7 @@ fn check_detect(t: &mut Tally, input: &[u8], d: usize, targets: &[F]) {
 		let mut explicit: HashMap<F, (Outcome, Outcome, Outcome)> = HashMap::new();
 		for &chunk in chunks {
 			let pol = policy(chunk, true, false, &marks);
-			let st = explore(if big { 0 } else { d }, 3000, |env| {
+			let st = explore(if big { 0 } else if input.len() > 12 { d.min(1) } else { d }, 3000, |env| {
 				let dr = detect_reader(SchedReader::new(input, env, pol.clone()));
 				let choices = env.borrow().choices();
 				t.evaluations += 1;
@@ -522,7 +522,7 @@ pub fn run(ctx: &Ctx) -> CheckOutput {
 	inputs.extend(extra_inputs());
 	inputs.extend(gen::all_bytes(2));
 	let inputs = gen::dedup(inputs);
-	let targets: Vec<F> = if thorough { F::ALL.to_vec() } else { vec![F::Json] };
+	let targets: Vec<F> = if thorough { vec![F::Json, F::Toml] } else { vec![F::Json] };
 	let tb = par_fold(&inputs, Tally::default, |t, idx, input| {
 		check_detect(t, input, d, &targets);
 		t.count("detect:inputs");
